@@ -9,10 +9,11 @@ EXTENDS Filters, TLC, Json
 CONSTANTS NMax, D, Family, Emit
 VARIABLES sc, u, phase
 
-Flavours == {"obj", "le", "ge", "eq"}
+Flavours == {"obj", "objneg", "le", "ge", "eq"}      \* "objneg": the ranked objective has a negative weight
 Target == 1                                   \* equality target / bound value
 
 KeyOf(fl, v) == CASE fl = "obj" -> v
+                  [] fl = "objneg" -> -v
                   [] fl = "le"  -> v - Target        \* c - ub, larger = worse
                   [] fl = "ge"  -> Target - v        \* lb - c, larger = worse
                   [] fl = "eq"  -> Abs(v - Target)
